@@ -339,6 +339,9 @@ func oracle(_ any, f []string, out string) (string, string) {
 	if out == "PANIC" || out == "TIMEOUT" {
 		return "crash-" + cmd, out
 	}
+	if strings.HasPrefix(out, "EXC ARG-MUTATED") {
+		return "argument-mutated-" + cmd, "the command changed one of its (immutable) number arguments in place: " + out
+	}
 	hasFloat, hasInf := false, false
 	for _, a := range args {
 		if v, ok := a.(float64); ok {
